@@ -193,6 +193,10 @@ class Cap(object):
         if not self.record:
             return
         key = (self.cur_fn.name, kind, node["i"])
+        if not undecided and st.imprecise and any(s_ in st.imprecise for c_ in st.cons for s_ in c_.syms()):
+            # the path that leads here was chosen by a value nothing is known about (unknown memory, an unmodelled result, a loop
+            # summary): whether this state exists at all is not established, so the finding is not definite
+            undecided = True
         if DEBUG_LOOPS and node.get("l") == int(os.environ.get("LA_DEBUG_LINE", "0")):
             print("   FAIL %s %s und=%s cons=%r path=%s" % (kind, detail[:60], undecided, st.cons[-12:], st.path[-8:]))
         o = Obligation(kind, node, self.cur_fn, False, detail, undecided=undecided, witness=None if undecided else model(st.cons))
@@ -370,7 +374,9 @@ class Cap(object):
                 return v
         if n.get("tp"):
             return UNK
-        return I(Lin.sym(fresh("m")))
+        m_ = fresh("m")
+        st.imprecise.add(m_)          # contents of memory nothing is known about: a finding that hinges on it is not definite
+        return I(Lin.sym(m_))
 
     def fresh_for(self, st, n, prefix):
         if n.get("tp"):
